@@ -7,6 +7,18 @@ open Ldk
 structure Inv (s : St) : Prop where
   dur_handed : s.upPreimageDurable = true → s.upPreimageHandedToWatch = true
   knows_handed : knowsPreimage s = true → s.upPreimageHandedToWatch = true
+  /-- the blocker is only ever removed once the upstream preimage update is durable -/
+  blocker_gate : (s.down = .fulfilSeen ∨ s.down = .removedByFulfil) → s.blocker = false → s.upPreimageDurable = true
+  raa_gate : s.down = .removedByFulfil → (s.downRaaUpdate = .handedToWatch ∨ s.downRaaUpdate = .durable) → s.upPreimageDurable = true
+  raa_removed : s.downRaaUpdate ≠ .notYet → (s.down = .removedByFulfil ∨ s.down = .removedByFail)
+  blocked_fulfil : s.downRaaUpdate = .blocked → s.down = .removedByFulfil
+  fulfil_sent : s.up = .fulfilSent → s.upPreimageDurable = true
+  fail_sent : s.up = .failSent → failAllowed s = true
+
+/-- `Inv` without `knows_handed`: what holds between learning the preimage and `claimUpstream` -/
+structure InvCore (s : St) : Prop where
+  dur_handed : s.upPreimageDurable = true → s.upPreimageHandedToWatch = true
+  blocker_gate : (s.down = .fulfilSeen ∨ s.down = .removedByFulfil) → s.blocker = false → s.upPreimageDurable = true
   raa_gate : s.down = .removedByFulfil → (s.downRaaUpdate = .handedToWatch ∨ s.downRaaUpdate = .durable) → s.upPreimageDurable = true
   raa_removed : s.downRaaUpdate ≠ .notYet → (s.down = .removedByFulfil ∨ s.down = .removedByFail)
   blocked_fulfil : s.downRaaUpdate = .blocked → s.down = .removedByFulfil
@@ -16,91 +28,128 @@ structure Inv (s : St) : Prop where
 theorem inv_init : Inv init := by
   constructor <;> simp [init, knowsPreimage, failAllowed]
 
-macro "fwd_simp" : tactic => `(tactic| simp_all [knowsPreimage, failAllowed, fulfilAllowed, handRaa, releaseBlocked, claimUpstream, completeAll, durDownKnowsPreimage, durUpKnowsPreimage])
+macro "fwd_simp" : tactic => `(tactic| simp_all [knowsPreimage, failAllowed, fulfilAllowed, handRaa, releaseBlocked,
+  runUpActions, upBusy, claimUpstream, completeAll, durDownKnowsPreimage, durUpKnowsPreimage])
 macro "fwd_cases" : tactic => `(tactic| (constructor <;> fwd_simp))
 
 theorem inv_of_fields (s : St) (a b : Bool) (h : Inv s) : Inv { s with alive := a, sync := b } := by
-  obtain ⟨h1, h2, h3, h4, h5, h6, h7⟩ := h
+  obtain ⟨h1, h2, h3, h4, h5, h6, h7, h8⟩ := h
   constructor <;> simp_all [knowsPreimage, failAllowed]
 
 theorem inv_releaseBlocked (s : St) (h : Inv s) : Inv (releaseBlocked s) := by
-  obtain ⟨alive, sync, down, uh, ud, cs, raa, up, depth⟩ := s
-  obtain ⟨h1, h2, h3, h4, h5, h6, h7⟩ := h
-  cases sync <;> cases ud <;> cases raa <;> fwd_cases
+  obtain ⟨alive, sync, down, uh, ud, cs, raa, bl, uo, up, depth⟩ := s; obtain ⟨h1, h2, h3, h4, h5, h6, h7, h8⟩ := h
+  cases sync <;> cases bl <;> cases raa <;> fwd_cases
+
+theorem inv_runUpActions (s : St) (h : Inv s) : Inv (runUpActions s) := by
+  obtain ⟨alive, sync, down, uh, ud, cs, raa, bl, uo, up, depth⟩ := s; obtain ⟨h1, h2, h3, h4, h5, h6, h7, h8⟩ := h
+  cases sync <;> cases uh <;> cases ud <;> cases raa <;> cases uo <;> fwd_cases
 
 theorem inv_claimUpstream (s : St) (h : Inv s) : Inv (claimUpstream s) := by
-  obtain ⟨alive, sync, down, uh, ud, cs, raa, up, depth⟩ := s
-  obtain ⟨h1, h2, h3, h4, h5, h6, h7⟩ := h
-  cases sync <;> cases uh <;> cases raa <;> fwd_cases
+  obtain ⟨alive, sync, down, uh, ud, cs, raa, bl, uo, up, depth⟩ := s; obtain ⟨h1, h2, h3, h4, h5, h6, h7, h8⟩ := h
+  cases sync <;> cases uh <;> cases ud <;> cases raa <;> cases uo <;> fwd_cases
+
+theorem inv_claimUpstream_core (s : St) (h : InvCore s) : Inv (claimUpstream s) := by
+  obtain ⟨alive, sync, down, uh, ud, cs, raa, bl, uo, up, depth⟩ := s
+  obtain ⟨h1, h3, h4, h5, h6, h7, h8⟩ := h
+  cases sync <;> cases uh <;> cases ud <;> cases raa <;> cases uo <;> fwd_cases
 
 theorem inv_completeAll (s : St) (h : Inv s) : Inv (completeAll s) := by
-  obtain ⟨alive, sync, down, uh, ud, cs, raa, up, depth⟩ := s
-  obtain ⟨h1, h2, h3, h4, h5, h6, h7⟩ := h
+  obtain ⟨alive, sync, down, uh, ud, cs, raa, bl, uo, up, depth⟩ := s; obtain ⟨h1, h2, h3, h4, h5, h6, h7, h8⟩ := h
   cases sync <;> cases uh <;> cases raa <;> cases cs <;> fwd_cases
 
 theorem inv_setSync (s : St) (b : Bool) (h : Inv s) : Inv (step s (.setSync b)) := by
   simp only [step]; split <;> first | exact h | exact inv_of_fields s s.alive b h
 
 theorem inv_recvFulfilDown (s : St) (h : Inv s) : Inv (step s .recvFulfilDown) := by
-  obtain ⟨alive, sync, down, uh, ud, cs, raa, up, depth⟩ := s
-  simp only [step]; split <;> first | exact h | (obtain ⟨h1, h2, h3, h4, h5, h6, h7⟩ := h; cases uh <;> cases sync <;> fwd_cases)
+  simp only [step]; split
+  · apply inv_claimUpstream_core
+    rename_i hc
+    obtain ⟨alive, sync, down, uh, ud, cs, raa, bl, uo, up, depth⟩ := s
+    obtain ⟨h1, h2, h3, h4, h5, h6, h7, h8⟩ := h
+    cases down <;> cases raa <;> (constructor <;> fwd_simp)
+  · exact h
 
 theorem inv_recvFailDown (s : St) (h : Inv s) : Inv (step s .recvFailDown) := by
-  obtain ⟨alive, sync, down, uh, ud, cs, raa, up, depth⟩ := s
-  simp only [step]; split <;> first | exact h | (obtain ⟨h1, h2, h3, h4, h5, h6, h7⟩ := h; fwd_cases)
+  obtain ⟨alive, sync, down, uh, ud, cs, raa, bl, uo, up, depth⟩ := s
+  simp only [step]; split <;> first | exact h | (obtain ⟨h1, h2, h3, h4, h5, h6, h7, h8⟩ := h; fwd_cases)
 
 theorem inv_recvCsDown (s : St) (h : Inv s) : Inv (step s .recvCsDown) := by
-  obtain ⟨alive, sync, down, uh, ud, cs, raa, up, depth⟩ := s
-  simp only [step]; split <;> first | exact h | (obtain ⟨h1, h2, h3, h4, h5, h6, h7⟩ := h; cases sync <;> fwd_cases)
+  obtain ⟨alive, sync, down, uh, ud, cs, raa, bl, uo, up, depth⟩ := s
+  simp only [step]; split <;> first | exact h | (obtain ⟨h1, h2, h3, h4, h5, h6, h7, h8⟩ := h; cases sync <;> fwd_cases)
 
 theorem inv_recvRaaDown (s : St) (h : Inv s) : Inv (step s .recvRaaDown) := by
-  obtain ⟨alive, sync, down, uh, ud, cs, raa, up, depth⟩ := s
+  obtain ⟨alive, sync, down, uh, ud, cs, raa, bl, uo, up, depth⟩ := s
   simp only [step]; split
   · split
-    · split <;> (obtain ⟨h1, h2, h3, h4, h5, h6, h7⟩ := h; cases sync <;> fwd_cases)
-    · (obtain ⟨h1, h2, h3, h4, h5, h6, h7⟩ := h; cases sync <;> fwd_cases)
+    · split <;> (obtain ⟨h1, h2, h3, h4, h5, h6, h7, h8⟩ := h; cases sync <;> fwd_cases)
+    · (obtain ⟨h1, h2, h3, h4, h5, h6, h7, h8⟩ := h; cases sync <;> fwd_cases)
     · exact h
   · exact h
 
 theorem inv_complete (s : St) (w : Which) (h : Inv s) : Inv (step s (.complete w)) := by
-  obtain ⟨alive, sync, down, uh, ud, cs, raa, up, depth⟩ := s
-  cases w <;> simp only [step] <;> split <;> first | exact h | (obtain ⟨h1, h2, h3, h4, h5, h6, h7⟩ := h; cases sync <;> cases raa <;> fwd_cases)
+  cases w
+  · simp only [step]; split
+    · apply inv_runUpActions
+      rename_i hc
+      obtain ⟨alive, sync, down, uh, ud, cs, raa, bl, uo, up, depth⟩ := s; obtain ⟨h1, h2, h3, h4, h5, h6, h7, h8⟩ := h
+      fwd_cases
+    · exact h
+  · obtain ⟨alive, sync, down, uh, ud, cs, raa, bl, uo, up, depth⟩ := s
+    simp only [step]; split <;> first | exact h | (obtain ⟨h1, h2, h3, h4, h5, h6, h7, h8⟩ := h; fwd_cases)
+  · obtain ⟨alive, sync, down, uh, ud, cs, raa, bl, uo, up, depth⟩ := s
+    simp only [step]; split <;> first | exact h | (obtain ⟨h1, h2, h3, h4, h5, h6, h7, h8⟩ := h; cases raa <;> fwd_cases)
+
+theorem inv_handUpOther (s : St) (h : Inv s) : Inv (step s .handUpOther) := by
+  obtain ⟨alive, sync, down, uh, ud, cs, raa, bl, uo, up, depth⟩ := s
+  simp only [step]; split <;> first | exact h | (obtain ⟨h1, h2, h3, h4, h5, h6, h7, h8⟩ := h; fwd_cases)
+
+theorem inv_completeUpOther (s : St) (h : Inv s) : Inv (step s .completeUpOther) := by
+  simp only [step]; split
+  · apply inv_runUpActions
+    obtain ⟨alive, sync, down, uh, ud, cs, raa, bl, uo, up, depth⟩ := s; obtain ⟨h1, h2, h3, h4, h5, h6, h7, h8⟩ := h
+    fwd_cases
+  · exact h
 
 theorem inv_crash (s : St) (lost : Bool) (h : Inv s) : Inv (step s (.crash lost)) := by
-  obtain ⟨alive, sync, down, uh, ud, cs, raa, up, depth⟩ := s
+  obtain ⟨alive, sync, down, uh, ud, cs, raa, bl, uo, up, depth⟩ := s
   simp only [step]; split
-  · split <;> (obtain ⟨h1, h2, h3, h4, h5, h6, h7⟩ := h; cases raa <;> cases cs <;> fwd_cases)
+  · split <;> (obtain ⟨h1, h2, h3, h4, h5, h6, h7, h8⟩ := h; cases raa <;> cases cs <;> fwd_cases)
+  · exact h
+
+theorem inv_replayClaims (s : St) (h : Inv s) : Inv (replayClaims s) := by
+  unfold replayClaims; split
+  · exact inv_claimUpstream _ h
   · exact h
 
 theorem inv_restart (s : St) (sy : Bool) (h : Inv s) : Inv (step s (.restart sy)) := by
   simp only [step]; split
   · exact h
-  · apply inv_releaseBlocked
-    have hs1 := inv_of_fields _ true sy h
+  · apply inv_runUpActions
+    have hs2 := inv_replayClaims _ (inv_of_fields _ true sy h)
     split
-    · apply inv_completeAll
-      split
-      · exact inv_claimUpstream _ hs1
-      · exact hs1
-    · split
-      · exact inv_claimUpstream _ hs1
-      · exact hs1
+    · exact inv_completeAll _ hs2
+    · exact hs2
 
 theorem inv_chainPreimage (s : St) (h : Inv s) : Inv (step s .chainPreimage) := by
-  obtain ⟨alive, sync, down, uh, ud, cs, raa, up, depth⟩ := s
-  simp only [step]; split <;> first | exact h | (obtain ⟨h1, h2, h3, h4, h5, h6, h7⟩ := h; cases down <;> cases uh <;> cases sync <;> cases raa <;> fwd_cases)
+  simp only [step]; split
+  · apply inv_claimUpstream_core
+    rename_i hc
+    obtain ⟨alive, sync, down, uh, ud, cs, raa, bl, uo, up, depth⟩ := s
+    obtain ⟨h1, h2, h3, h4, h5, h6, h7, h8⟩ := h
+    cases down <;> cases raa <;> (constructor <;> fwd_simp)
+  · exact h
 
 theorem inv_chainTimeout (s : St) (d : Nat) (h : Inv s) : Inv (step s (.chainTimeout d)) := by
-  obtain ⟨alive, sync, down, uh, ud, cs, raa, up, depth⟩ := s
-  simp only [step]; split <;> first | exact h | (obtain ⟨h1, h2, h3, h4, h5, h6, h7⟩ := h; cases down <;> cases raa <;> fwd_cases)
+  obtain ⟨alive, sync, down, uh, ud, cs, raa, bl, uo, up, depth⟩ := s
+  simp only [step]; split <;> first | exact h | (obtain ⟨h1, h2, h3, h4, h5, h6, h7, h8⟩ := h; cases down <;> cases raa <;> fwd_cases)
 
 theorem inv_sendFulfilUp (s : St) (h : Inv s) : Inv (step s .sendFulfilUp) := by
-  obtain ⟨alive, sync, down, uh, ud, cs, raa, up, depth⟩ := s
-  simp only [step]; split <;> first | exact h | (obtain ⟨h1, h2, h3, h4, h5, h6, h7⟩ := h; cases up <;> cases ud <;> fwd_cases)
+  obtain ⟨alive, sync, down, uh, ud, cs, raa, bl, uo, up, depth⟩ := s
+  simp only [step]; split <;> first | exact h | (obtain ⟨h1, h2, h3, h4, h5, h6, h7, h8⟩ := h; cases up <;> cases ud <;> fwd_cases)
 
 theorem inv_sendFailUp (s : St) (h : Inv s) : Inv (step s .sendFailUp) := by
-  obtain ⟨alive, sync, down, uh, ud, cs, raa, up, depth⟩ := s
-  simp only [step]; split <;> first | exact h | (obtain ⟨h1, h2, h3, h4, h5, h6, h7⟩ := h; cases up <;> fwd_cases)
+  obtain ⟨alive, sync, down, uh, ud, cs, raa, bl, uo, up, depth⟩ := s
+  simp only [step]; split <;> first | exact h | (obtain ⟨h1, h2, h3, h4, h5, h6, h7, h8⟩ := h; cases up <;> fwd_cases)
 
 theorem inv_step (s : St) (op : Op) (h : Inv s) : Inv (step s op) := by
   cases op with
@@ -110,6 +159,8 @@ theorem inv_step (s : St) (op : Op) (h : Inv s) : Inv (step s op) := by
   | recvCsDown => exact inv_recvCsDown s h
   | recvRaaDown => exact inv_recvRaaDown s h
   | complete w => exact inv_complete s w h
+  | handUpOther => exact inv_handUpOther s h
+  | completeUpOther => exact inv_completeUpOther s h
   | crash lost => exact inv_crash s lost h
   | restart sy => exact inv_restart s sy h
   | chainPreimage => exact inv_chainPreimage s h
@@ -123,13 +174,68 @@ theorem inv_run (s : St) (ops : List Op) (h : Inv s) : Inv (run s ops) := by
   | cons op t ih => exact ih _ (inv_step s op h)
 
 theorem inv_reachable (ops : List Op) : Inv (run init ops) := inv_run _ _ inv_init
+
 /-- once the preimage update is with `chain::Watch`, completing it enables (and `sendFulfilUp` performs) the upstream claim -/
 theorem claim_after_complete (t : St) (ha : t.alive = true) (hh : t.upPreimageHandedToWatch = true)
     (hp : t.up = .pending) : (run t [.complete .up, .sendFulfilUp]).up = .fulfilSent := by
-  obtain ⟨alive, sync, down, uh, ud, cs, raa, up, depth⟩ := t
+  obtain ⟨alive, sync, down, uh, ud, cs, raa, bl, uo, up, depth⟩ := t
   simp only at ha hh hp
   subst ha hh hp
-  cases sync <;> cases ud <;> cases raa <;>
-    simp [run, step, releaseBlocked, handRaa, fulfilAllowed]
+  cases sync <;> cases ud <;> cases raa <;> cases bl <;> cases uo <;>
+    simp [run, step, releaseBlocked, runUpActions, upBusy, handRaa, fulfilAllowed]
+
+/-! ### which fields the helper steps touch -/
+
+theorem runUpActions_uh (s : St) : (runUpActions s).upPreimageHandedToWatch = s.upPreimageHandedToWatch := by
+  unfold runUpActions releaseBlocked handRaa; repeat' split
+  all_goals rfl
+theorem runUpActions_ud (s : St) : (runUpActions s).upPreimageDurable = s.upPreimageDurable := by
+  unfold runUpActions releaseBlocked handRaa; repeat' split
+  all_goals rfl
+theorem runUpActions_alive (s : St) : (runUpActions s).alive = s.alive := by
+  unfold runUpActions releaseBlocked handRaa; repeat' split
+  all_goals rfl
+theorem runUpActions_up (s : St) : (runUpActions s).up = s.up := by
+  unfold runUpActions releaseBlocked handRaa; repeat' split
+  all_goals rfl
+
+theorem claimUpstream_uh (s : St) : (claimUpstream s).upPreimageHandedToWatch = true := by
+  unfold claimUpstream; split
+  · rename_i h; rw [runUpActions_uh]; exact h
+  · rw [runUpActions_uh]
+theorem claimUpstream_alive (s : St) : (claimUpstream s).alive = s.alive := by
+  unfold claimUpstream; split <;> rw [runUpActions_alive]
+theorem claimUpstream_up (s : St) : (claimUpstream s).up = s.up := by
+  unfold claimUpstream; split <;> rw [runUpActions_up]
+
+theorem completeAll_uh (s : St) : (completeAll s).upPreimageHandedToWatch = s.upPreimageHandedToWatch := by
+  simp only [completeAll, runUpActions_uh]
+theorem completeAll_ud (s : St) : (completeAll s).upPreimageDurable = s.upPreimageHandedToWatch := by
+  simp only [completeAll, runUpActions_ud]
+theorem completeAll_alive (s : St) : (completeAll s).alive = s.alive := by
+  simp only [completeAll, runUpActions_alive]
+theorem completeAll_up (s : St) : (completeAll s).up = s.up := by
+  simp only [completeAll, runUpActions_up]
+
+/-- what `restart` does when a durable monitor knows the preimage and the upstream HTLC is pending -/
+theorem restart_replays (s : St) (sy : Bool) (hdead : s.alive = false)
+    (hk : (durDownKnowsPreimage s || durUpKnowsPreimage s) = true) (hp : s.up = .pending) :
+    (step s (.restart sy)).alive = true ∧ (step s (.restart sy)).up = .pending ∧
+    (step s (.restart sy)).upPreimageHandedToWatch = true ∧
+    (sy = true → (step s (.restart sy)).upPreimageDurable = true) := by
+  have hr : replayClaims { s with alive := true, sync := sy } = claimUpstream { s with alive := true, sync := sy } := by
+    have hc : ((durDownKnowsPreimage { s with alive := true, sync := sy } || durUpKnowsPreimage { s with alive := true, sync := sy })
+        && ({ s with alive := true, sync := sy } : St).up == .pending) = true := by
+      show ((durDownKnowsPreimage s || durUpKnowsPreimage s) && s.up == .pending) = true
+      rw [hk, hp]; rfl
+    unfold replayClaims; rw [if_pos hc]
+  have hstep : step s (.restart sy) = runUpActions (if sy = true then completeAll (claimUpstream { s with alive := true, sync := sy })
+      else claimUpstream { s with alive := true, sync := sy }) := by
+    simp only [step, hdead, Bool.false_eq_true, if_false, hr]
+  rw [hstep]
+  cases sy <;>
+    simp [hp, runUpActions_uh, runUpActions_ud, runUpActions_alive, runUpActions_up,
+      claimUpstream_uh, claimUpstream_alive, claimUpstream_up, completeAll_uh, completeAll_ud, completeAll_alive,
+      completeAll_up]
 
 end Ldk.Forward
